@@ -307,3 +307,43 @@ func SetUntil(d time.Duration) {}
 // Quiesce returns once no other goroutine of the program can make progress (every
 // one is blocked or finished). Natively it is a short sleep.
 func Quiesce() { time.Sleep(40 * time.Millisecond) }
+
+// IteByte is a term-level conditional on bytes (no fork under the engine).
+func IteByte(c bool, a, b byte) byte {
+	if c {
+		return a
+	}
+	return b
+}
+
+// WireHeaderValue is the contract of an HTTP/1.1 header value crossing the wire as
+// net/http writes and reads it: CR and LF become spaces, then leading and trailing
+// SP / HTAB are trimmed. (RFC 7230 field values; net/http's header writer and
+// textproto's reader.)
+func WireHeaderValue(v string) string {
+	b := []byte(v)
+	for i := range b {
+		c := b[i]
+		b[i] = IteByte(Or(c == '\r', c == '\n'), ' ', c)
+	}
+	lo, hi := 0, len(b)
+	for lo < hi && (b[lo] == ' ' || b[lo] == '\t') {
+		lo++
+	}
+	for hi > lo && (b[hi-1] == ' ' || b[hi-1] == '\t') {
+		hi--
+	}
+	return string(b[lo:hi])
+}
+
+// ValidRequestHeaderValue is net/http's client-side check of a request header
+// value (golang.org/x/net/http/httpguts.ValidHeaderFieldValue): no control
+// characters except HTAB.
+func ValidRequestHeaderValue(v string) bool {
+	ok := true
+	for i := 0; i < len(v); i++ {
+		c := v[i]
+		ok = And(ok, Or(c == '\t', And(c >= 0x20, c != 0x7f)))
+	}
+	return ok
+}
